@@ -106,6 +106,7 @@ type c09Obs struct {
 	Resumed  string `json:"resumed"` // P | N | other
 	Detail   string `json:"detail,omitempty"`
 	StoreLen int64  `json:"storeLen"`
+	Retry    string `json:"retry,omitempty"` // outcome of re-sending the same update once the fault is gone: "", ok, not-persisted: ..., start-fails: ...
 }
 
 func setLimit(n int64) error {
@@ -182,6 +183,7 @@ func c09Child(args []string) int {
 		o := c09Obs{Limit: lim, FileLen: full}
 		_ = os.RemoveAll(*dir)
 		var pState, nState string
+		var running *sidecar.TargetsManager
 		if *mode == "update+legacy" {
 			// a store directory that still holds the file of an old version (kvass never deletes it)
 			_ = os.MkdirAll(*dir, 0755)
@@ -192,6 +194,7 @@ func c09Child(args []string) int {
 		case "update", "update+legacy":
 			// a running sidecar that acknowledged P
 			run := newTM(*dir)
+			running = run
 			if err := run.Load(); err != nil {
 				o.Detail = "setup load: " + err.Error()
 			}
@@ -250,6 +253,22 @@ func c09Child(args []string) int {
 				o.Resumed = "P=N"
 			} else {
 				o.Detail = "resumed=" + clipS(got, 300) + " previous=" + clipS(pState, 200) + " new=" + clipS(nState, 200)
+			}
+		}
+		// the coordinator re-sends the same update in the next cycle; the running sidecar must now persist it
+		if (*mode == "update" || *mode == "update+legacy") && !o.Ack && running != nil {
+			if err := running.UpdateTargets(&shard.UpdateTargetsRequest{Targets: N}); err != nil {
+				o.Retry = "retry-fails: " + err.Error()
+			} else {
+				want := stateJSON(running.TargetsInfo())
+				f2 := newTM(*dir)
+				if err := f2.Load(); err != nil {
+					o.Retry = "start-fails: " + err.Error()
+				} else if got2 := stateJSON(f2.TargetsInfo()); got2 != want {
+					o.Retry = "not-persisted: acknowledged " + clipS(want, 160) + " resumed " + clipS(got2, 160)
+				} else {
+					o.Retry = "ok"
+				}
 			}
 		}
 		b, _ := json.Marshal(o)
@@ -410,6 +429,15 @@ func runC09(w *core.WorkerCtx, idx int) *core.CaseResult {
 		case o.Ack && o.Resumed == "P":
 			bad = "acknowledged-update-lost"
 		}
+		if o.Retry != "" && o.Retry != "ok" {
+			res.AddStat("retries_after_failed_write", 1)
+			if bad == "" {
+				bad = "retried-update-" + strings.SplitN(o.Retry, ":", 2)[0]
+				o.Detail = o.Retry
+			}
+		} else if o.Retry == "ok" {
+			res.AddStat("retries_after_failed_write", 1)
+		}
 		if bad != "" {
 			sig := "C09/" + c.Mode + "/" + bad
 			if firstBad == nil {
@@ -458,7 +486,7 @@ func init() {
 		Level: "fault_enumeration",
 		Rule: "fault = the write of the store file stops after exactly N bytes (RLIMIT_FSIZE=N in a child process running the real TargetsManager.UpdateTargets / Load; the kernel cuts the write, which leaves the disk as a kill or a full disk at byte N would); " +
 			"enumerated over ordered pairs (previous, new) of assignment shapes {empty, one, fifty, escape-heavy labels, mixed states, job move, other-one, 300 targets} x every offset N in 0..len(file)+2 (thorough: all pairs, stride 1; quick: stride 1 for four pairs and for the old-file-name path, stride 7/211 otherwise), " +
-			"plus the old-file-name fall-back interrupted while it is first rewritten, plus the update sweep in a directory that still holds a stale old-version targets.json (5 pairs incl. empty assignments), plus the process KILLED inside the store write at byte N (strace injects SIGKILL on the write() that follows the cut one, so no clean-up code runs; 4 pairs, thorough 8, strided offsets) followed by three restarts and an acknowledged follow-up update, plus SIGKILL of the real `kvass sidecar` binary during updates; after each fault a fresh manager loads the directory (after a cut write: twice, then a follow-up update and another restart); " +
+			"plus the old-file-name fall-back interrupted while it is first rewritten, plus the update sweep in a directory that still holds a stale old-version targets.json (5 pairs incl. empty assignments), plus the process KILLED inside the store write at byte N (strace injects SIGKILL on the write() that follows the cut one, so no clean-up code runs; 4 pairs, thorough 8, strided offsets) followed by three restarts and an acknowledged follow-up update, plus SIGKILL of the real `kvass sidecar` binary during updates; after each fault a fresh manager loads the directory, then the running sidecar is sent the SAME update again without fault (as the coordinator would) and a restart must resume it (after a cut write: twice, then a follow-up update and another restart); " +
 			"non-trivial = a sweep chunk with at least one offset executed; distinct = (mode, previous, new, offset range)",
 		Assumptions: []string{
 			"a write cut by RLIMIT_FSIZE after N bytes leaves the same bytes on disk as a process killed / a disk filling up at that byte; later fsync/power-loss behaviour of the file system is out of scope",
